@@ -64,10 +64,21 @@ func (a *Adapter) call(name string, args ...string) error {
 	}
 	if a.FailAt != 0 && a.Calls == a.FailAt {
 		a.FailAt = 0
+		// every other injected failure is worded like a real backend's, and happens to contain the words the
+		// library uses for "this adapter does not offer the call" ("not implemented"): a failure all the same
+		injected++
+		if injected%2 == 0 {
+			return ErrInjectedWordy
+		}
 		return ErrInjected
 	}
 	return nil
 }
+
+var injected int
+
+// ErrInjectedWordy is a failure whose text contains "not implemented" without being that message.
+var ErrInjectedWordy = errors.New("backend: DELETE failed: cascading delete is not implemented for table casbin_rule")
 
 func same(a, b []string) bool {
 	if len(a) != len(b) {
